@@ -28,4 +28,11 @@ kk_range_rt!(c02_rt_k2_u8_u16_p4, k_c02_rt_k2_u8_u16_p4, u16, u8, 2, 0, arr_u8, 
 kk_range_rt!(c02_rt_k3_u8_u16_p4, k_c02_rt_k3_u8_u16_p4, u16, u8, 3, 0, arr_u8, arr_u8);
 kk_range_rt!(c11_suffix_k2_u8_u16_p4, k_c11_suffix_k2_u8_u16_p4, u16, u8, 2, 4, arr_u8, arr_u8);
 
-dispatch!(c02_rt_k1_u8_u16_p8, c02_rt_k1_u8_u16_p4, c02_rt_k2_u8_u16_p8, c11_suffix_k1_u8_u16_p8, c11_suffix_k1_u8_u16_p4, c02_rt_k2_u8_u16_p4, c02_rt_k3_u8_u16_p4, c11_suffix_k2_u8_u16_p4);
+// CBMC twin of the observational C09 kernel (3 encodes + 2 decodes around a failing call)
+harness!(c09_ans_u8_u16_p4, unwind = 8, |s| {
+    let r = k_c09_ans_u8_u16_p4(s.u16(), s.u8(), s.u32(), s.u8(), s.u8(), s.u8(), s.u8(), s.u32(), s.u8());
+    vcover!(r == 0);
+    assert!(r <= 1 || r == 20); // 20 = raw parts differ although every observation agrees: not a violation
+});
+
+dispatch!(c09_ans_u8_u16_p4, c02_rt_k1_u8_u16_p8, c02_rt_k1_u8_u16_p4, c02_rt_k2_u8_u16_p8, c11_suffix_k1_u8_u16_p8, c11_suffix_k1_u8_u16_p4, c02_rt_k2_u8_u16_p4, c02_rt_k3_u8_u16_p4, c11_suffix_k2_u8_u16_p4);
